@@ -958,7 +958,7 @@ QXV_DRIVER(codec)
             }
             QJsonArray objs;
             for (const auto &t : objectTypes()) {
-                objs.append(QJsonObject { { "name", t.name }, { "fields", jarr(t.fields) } });
+                objs.append(QJsonObject { { "name", t.name }, { "fields", jarr(t.fields) }, { "kinds", jarr(t.kinds) } });
             }
             ctx.emit_({ { "e", "List" }, { "case", caseId }, { "registry", a }, { "objects", objs } });
             continue;
@@ -971,7 +971,7 @@ QXV_DRIVER(codec)
             continue;
         }
         if (kind == "obj") {
-            auto res = objectCase(ctx, job["cls"].toString(), job["map"].toInt(), job["vals"].toArray(), job["variant"].toInt(), job["getters"].toBool());
+            auto res = objectCase(ctx, job["cls"].toString(), job["map"].toInt(), job["vals"].toArray(), job["variant"].toInt(), job["getters"].toBool(), job.contains("shape") ? job["shape"].toInt() : -1);
             res.insert("e", "Obj");
             res.insert("case", caseId);
             ctx.emit_(res);
